@@ -1,9 +1,225 @@
 import VelaVerif.Lemmas.AllocSpec
-import VelaVerif.Model.Alloc
-namespace VelaVerif.Props.C05
-open VelaVerif.Spec.Alloc
+import VelaVerif.Lemmas.AllocGreedy
+import VelaVerif.Lemmas.AllocLinear
+/-!
+# C05 — tensor allocators never overlap live buffers and report their true footprint
 
+Property theorems only.  Model: `Model/Alloc.lean` (hand transcription of `greedy_allocation.py`,
+`hillclimb_allocation.py`, `tensor_allocation.py`), Spec: `Spec/Alloc.lean`, helper lemmas:
+`Lemmas/AllocSpec.lean`, `Lemmas/AllocGreedy.lean`, `Lemmas/AllocLinear.lean`, `Lemmas/AllocHc.lean`.
+All statements are for arbitrary lists (any number of ranges, any times, sizes, alignments).
+-/
+namespace VelaVerif.Props.C05
+open VelaVerif.Alloc VelaVerif.Spec.Alloc
+
+/-! ## The Spec checker that judges the implementation's outputs -/
+
+/-- The executable verdict `Spec.Alloc.ok` (applied by the harness to the addresses and total
+    returned by the real allocators) holds exactly when the property holds. -/
 theorem spec_checker_sound_complete (ps : List Placed) (total : Nat) :
     ok ps total = true ↔ Ok ps total := ok_iff ps total
+
+theorem spec_noOverlap_checker (ps : List Placed) : noOverlapB ps = true ↔ NoOverlap ps :=
+  noOverlapB_iff ps
+
+theorem spec_aligned_checker (ps : List Placed) : alignedB ps = true ↔ Aligned ps := alignedB_iff ps
+
+theorem spec_total_checker (ps : List Placed) (total : Nat) :
+    (total == highestEnd ps) = true ↔ IsHighestEnd ps total := by
+  rw [beq_iff_eq]; exact highestEnd_iff ps total
+
+theorem spec_peak_checker (ps : List Placed) (total : Nat) :
+    coversPeakB ps total = true ↔ CoversPeak ps total := coversPeakB_iff ps total
+
+/-- "alive at a common time step" is symmetric, so `NoOverlap` does not depend on the order in
+    which the buffers are listed. -/
+theorem spec_noOverlap_perm {ps qs : List Placed} (h : ps.Perm qs) : NoOverlap ps ↔ NoOverlap qs :=
+  List.Perm.pairwise_iff (fun h => noConflict_symm h) h
+
+/-- Footprint ≥ peak for *any* allocation that is overlap free, shares nothing and stays below
+    `total` (used for HillClimb below). -/
+theorem spec_disjoint_covers_peak (ps : List Placed) (total : Nat) (hcls : ∀ p ∈ ps, p.cls = 0)
+    (hno : NoOverlap ps) (hT : ∀ p ∈ ps, p.addr + p.size ≤ total) : CoversPeak ps total :=
+  coversPeak_of_noOverlap ps total hcls hno hT
+
+/-! ## Greedy -/
+
+/-- every range is placed exactly once -/
+theorem greedy_places_all (lrs : List LR) (pl : List (LR × Nat)) (total : Nat)
+    (h : greedy lrs = .ok (pl, total)) : (pl.map Prod.fst).Perm lrs := by
+  unfold greedy at h
+  split at h
+  · cases h
+  · injection h with h
+    have h1 := congrArg Prod.fst h
+    have h2 := congrArg Prod.snd h
+    simp only at h1 h2
+    rw [← h1, greedyLoop_map_fst]
+    exact isort_perm _ _
+
+/-- **greedy_disjoint**: any two ranges alive at a common time step get disjoint byte intervals,
+    for every list of ranges with positive sizes (alignment 0 is rejected by the model as by the
+    code: ZeroDivisionError). -/
+theorem greedy_disjoint (lrs : List LR) (pl : List (LR × Nat)) (total : Nat)
+    (h : greedy lrs = .ok (pl, total)) (hsz : ∀ lr ∈ lrs, 0 < lr.size) :
+    NoOverlap (pl.map toPlaced) := by
+  unfold greedy at h
+  split at h
+  · cases h
+  · rename_i hal
+    injection h with h
+    have h1 := congrArg Prod.fst h
+    have h2 := congrArg Prod.snd h
+    simp only at h1 h2
+    rw [← h1]
+    refine (greedyLoop_ok (isort greedyLe lrs) [] 0 ?_ ?_ List.Pairwise.nil (by simp)).2
+    · exact (isort_pairwise greedyLe greedyLe_trans greedyLe_total lrs).imp
+        (fun {a b} hab => greedyLe_start a b hab)
+    · intro lr hlr
+      rw [mem_isort] at hlr
+      refine ⟨hsz lr hlr, ?_⟩
+      rw [Bool.not_eq_true, List.any_eq_false] at hal
+      have := hal lr hlr
+      simp only [beq_iff_eq] at this
+      omega
+
+/-- **greedy_aligned** -/
+theorem greedy_aligned (lrs : List LR) (pl : List (LR × Nat)) (total : Nat)
+    (h : greedy lrs = .ok (pl, total)) : Aligned (pl.map toPlaced) := by
+  unfold greedy at h
+  split at h
+  · cases h
+  · injection h with h
+    have h1 := congrArg Prod.fst h
+    have h2 := congrArg Prod.snd h
+    simp only at h1 h2
+    intro p hp
+    obtain ⟨q, hq, rfl⟩ := List.mem_map.1 hp
+    rw [← h1] at hq
+    exact greedyLoop_aligned _ _ _ q hq
+
+/-- **greedy_total**: the reported total is `max (addr + round_up(size, align))`. -/
+theorem greedy_total (lrs : List LR) (pl : List (LR × Nat)) (total : Nat)
+    (h : greedy lrs = .ok (pl, total)) : total = paddedEnd (pl.map toPlaced) := by
+  unfold greedy at h
+  split at h
+  · cases h
+  · injection h with h
+    have h1 := congrArg Prod.fst h
+    have h2 := congrArg Prod.snd h
+    simp only at h1 h2
+    rw [← h1, ← h2, greedyLoop_total]
+    omega
+
+/-- … hence never below the highest end address (an over-report only) … -/
+theorem greedy_total_ge_highestEnd (lrs : List LR) (pl : List (LR × Nat)) (total : Nat)
+    (h : greedy lrs = .ok (pl, total)) : highestEnd (pl.map toPlaced) ≤ total := by
+  rw [greedy_total lrs pl total h]
+  rcases le_paddedEnd (pl.map toPlaced) with hle | ⟨p, hp, hz⟩
+  · exact hle
+  · exfalso
+    obtain ⟨q, hq, rfl⟩ := List.mem_map.1 hp
+    have hperm := greedy_places_all lrs pl total h
+    have hmem : q.1 ∈ lrs := hperm.mem_iff.1 (List.mem_map_of_mem hq)
+    unfold greedy at h
+    split at h
+    · cases h
+    · rename_i hal
+      rw [Bool.not_eq_true, List.any_eq_false] at hal
+      have := hal q.1 hmem
+      simp only [beq_iff_eq] at this
+      exact this hz
+
+/-- … and exactly the highest end address when every size is a multiple of its alignment
+    (what `Tensor.storage_size()` guarantees for the default 16-byte alignment). -/
+theorem greedy_total_exact (lrs : List LR) (pl : List (LR × Nat)) (total : Nat)
+    (h : greedy lrs = .ok (pl, total)) (hmul : ∀ lr ∈ lrs, 0 < lr.align ∧ lr.align ∣ lr.size) :
+    IsHighestEnd (pl.map toPlaced) total := by
+  rw [← highestEnd_iff, greedy_total lrs pl total h, paddedEnd_eq]
+  congr 1
+  rw [List.map_map]
+  apply List.map_congr_left
+  intro q hq
+  have hperm := greedy_places_all lrs pl total h
+  have hmem : q.1 ∈ lrs := hperm.mem_iff.1 (List.mem_map_of_mem hq)
+  obtain ⟨h1, h2⟩ := hmul q.1 hmem
+  simp only [Function.comp, pad, toPlaced, spec_roundUp_eq, roundUp_of_dvd _ _ h1 h2]
+
+/-- The whole property for Greedy under that hypothesis. -/
+theorem greedy_ok (lrs : List LR) (pl : List (LR × Nat)) (total : Nat)
+    (h : greedy lrs = .ok (pl, total)) (hsz : ∀ lr ∈ lrs, 0 < lr.size)
+    (hmul : ∀ lr ∈ lrs, 0 < lr.align ∧ lr.align ∣ lr.size) : Ok (pl.map toPlaced) total :=
+  ⟨greedy_disjoint lrs pl total h hsz, greedy_aligned lrs pl total h, greedy_total_exact lrs pl total h hmul⟩
+
+/-- The literal "total equals the highest end address" is false of the unchanged code whenever a
+    size is not a multiple of its alignment: one range, size 16, alignment 64 (known finding
+    `total==max(addr+round_up(size,align))`). -/
+theorem greedy_total_witness :
+    greedy [⟨0, 0, 16, 64, 0, 0⟩] = .ok ([(⟨0, 0, 16, 64, 0, 0⟩, 0)], 64) ∧
+    highestEnd ([((⟨0, 0, 16, 64, 0, 0⟩ : LR), 0)].map toPlaced) = 16 := ⟨rfl, by decide⟩
+
+/-- Without `0 < size` Greedy does overlap (zero-sized entries reset `current_offset`): the
+    hypothesis of `greedy_disjoint` is needed.  (`storage_size()` never returns 0.) -/
+theorem greedy_size0_witness :
+    ∃ pl total, greedy [⟨0, 9, 16, 16, 0, 0⟩, ⟨0, 1, 16, 16, 1, 1⟩, ⟨1, 9, 0, 16, 2, 2⟩,
+        ⟨1, 9, 16, 16, 3, 3⟩] = .ok (pl, total) ∧
+      noOverlapB (pl.map toPlaced) = false := by
+  refine ⟨_, _, rfl, ?_⟩
+  decide
+
+/-! ## LinearAlloc -/
+
+/-- **linear_disjoint**: distinct ranges get disjoint byte intervals *regardless of their live
+    times*, unless they were declared equivalent (equal weight-compression config or equal
+    equivalence id — summarised by any class assignment `cls` satisfying `LinHyp`), in which case
+    they share one address. -/
+theorem linear_disjoint (sizes : List Nat) (tens : List LTens) (cls : Nat → Nat) (gran : Nat)
+    (hg : 0 < gran) (hyp : LinHyp sizes tens cls) (addrs : List (Nat × Nat)) (total : Nat)
+    (h : linear sizes tens gran = .ok (addrs, total)) (times : Nat → Nat × Nat) :
+    NoOverlap (addrs.map (linPlaced sizes times cls gran)) := by
+  obtain ⟨alloc, fresh, inv⟩ := linear_inv sizes tens cls gran hyp addrs total h
+  exact List.Pairwise.imp (R := fun a b => Spec.Alloc.Disjoint a b ∨ Shared a b) (S := NoConflict)
+    (fun h _ => h) (linInv_noOverlap sizes tens cls gran hg _ fresh inv times)
+
+/-- **linear_aligned**: every address is a multiple of the allocation granularity. -/
+theorem linear_aligned (sizes : List Nat) (tens : List LTens) (cls : Nat → Nat) (gran : Nat)
+    (hyp : LinHyp sizes tens cls) (addrs : List (Nat × Nat)) (total : Nat)
+    (h : linear sizes tens gran = .ok (addrs, total)) (times : Nat → Nat × Nat) :
+    Aligned (addrs.map (linPlaced sizes times cls gran)) := by
+  obtain ⟨alloc, fresh, inv⟩ := linear_inv sizes tens cls gran hyp addrs total h
+  intro p hp
+  obtain ⟨e, he, rfl⟩ := List.mem_map.1 hp
+  exact inv.gran_addr e he
+
+/-- **linear_total**: the total is `max (addr + round_up(size, granularity))` (the sum of the
+    padded sizes of the ranges that received a region of their own). -/
+theorem linear_total (sizes : List Nat) (tens : List LTens) (cls : Nat → Nat) (gran : Nat)
+    (hyp : LinHyp sizes tens cls) (addrs : List (Nat × Nat)) (total : Nat)
+    (h : linear sizes tens gran = .ok (addrs, total)) (times : Nat → Nat × Nat) :
+    total = paddedEnd (addrs.map (linPlaced sizes times cls gran)) := by
+  obtain ⟨alloc, fresh, inv⟩ := linear_inv sizes tens cls gran hyp addrs total h
+  exact linInv_total sizes tens cls gran _ fresh inv times
+
+/-- same padding witness for LinearAlloc: one range of 16 bytes, granularity 64 → total 64 -/
+theorem linear_total_witness :
+    linear [16] [⟨0, 0, 0, false, 0⟩] 64 = .ok ([(0, 0)], 64) := rfl
+
+/-! ## Non-vacuity -/
+
+/-- four ranges, the fourth reuses the gap left by the expired first one -/
+example : greedy [⟨0, 1, 32, 16, 0, 0⟩, ⟨0, 5, 48, 16, 1, 1⟩, ⟨2, 5, 16, 16, 2, 2⟩, ⟨3, 5, 16, 16, 3, 3⟩] =
+    .ok ([(⟨0, 5, 48, 16, 1, 1⟩, 0), (⟨0, 1, 32, 16, 0, 0⟩, 48), (⟨2, 5, 16, 16, 2, 2⟩, 48),
+          (⟨3, 5, 16, 16, 3, 3⟩, 64)], 80) := rfl
+
+/-- two ranges sharing a weight-compression config, one on its own -/
+example : linear [32, 32, 16] [⟨0, 7, 1, false, 10⟩, ⟨1, 7, 1, false, 11⟩, ⟨2, 0, 0, false, 12⟩] 16 =
+    .ok ([(0, 0), (1, 0), (2, 32)], 48) := rfl
+
+example : LinHyp [32, 32, 16] [⟨0, 7, 1, false, 10⟩, ⟨1, 7, 1, false, 11⟩, ⟨2, 0, 0, false, 12⟩]
+    (fun i => if i < 2 then 1 else 0) := by
+  constructor
+  intro x hx y hy
+  simp only [List.mem_cons, List.not_mem_nil, or_false] at hx hy
+  rcases hx with rfl | rfl | rfl <;> rcases hy with rfl | rfl | rfl <;> simp [Match]
 
 end VelaVerif.Props.C05
